@@ -100,7 +100,8 @@ def strat_polars():
         "cells": st.lists(cell, min_size=0, max_size=5),
         "min_value": st.integers(-3, 3),
         "dtype_ok": st.booleans(),
-        "container": st.sampled_from(["DataFrame", "LazyFrame"]),
+        # (a subclass of pl.DataFrame - e.g. pandera.typing.polars.DataFrame - is a DataFrame)
+        "container": st.sampled_from(["DataFrame", "DataFrame", "LazyFrame", "LazyFrame", "DataFrameSubclass", "DataFrameSubclass"]),
         "depth": st.sampled_from([None] + DEPTHS),
         "lazy": st.booleans(),
         "extra_col": st.booleans(),
@@ -124,6 +125,8 @@ def eval_polars(case):
         cols["zz"] = pl.Series("zz", [1] * len(cells), dtype=pl.Int64)
     df = pl.DataFrame(cols)
     obj = df.lazy() if case["container"] == "LazyFrame" else df
+    if case["container"] == "DataFrameSubclass":
+        obj = type("UserFrame", (pl.DataFrame,), {})(df)
     entry = case.get("entry", "schema")
     dt = pl.Int64 if case["dtype_ok"] else pl.Utf8
     if entry == "column":
@@ -169,7 +172,7 @@ def eval_polars(case):
                    + ("" if entry == "schema" else ":entry=" + entry),
                    {"effective_depth": eff, "schema_bad": schema_bad, "data_bad": data_bad, "pandera": o["kind"],
                     "reasons": o.get("reasons")})
-        elif not rejected and fp.kind_of(o["value"]) != "pl." + case["container"]:
+        elif not rejected and case["container"] != "DataFrameSubclass" and fp.kind_of(o["value"]) != "pl." + case["container"]:
             ev.add("polars-container-kind-changed", {"in": case["container"], "out": fp.kind_of(o["value"])})
     if fp.config_state() != before:
         ev.add("config-not-restored-after-polars-validate", {"before": before, "after": fp.config_state()})
